@@ -67,6 +67,14 @@ class Sys(e2.DevSys):
         self.seen = {}
         self.boot("A")
         self.boot("B")
+        if cfg.get("uptime"):
+            # both stacks have been running for a long time: the offerer has sent `uptime` multicast messages (its real
+            # counter is advanced by that many real calls), the watcher has seen the last of them
+            n = cfg["uptime"]
+            ssa = self.stacks["A"].prot.session_storage
+            for _ in range(n):
+                ssa.assign_outgoing(None)  # (None is the multicast group's key)
+            self.stacks["B"].prot.session_storage.check_received(ADDR["A"], True, True, n)
 
     def close(self):
         self.seam.__exit__(None, None, None)
@@ -310,6 +318,10 @@ def cfgs(ctx):
             # one send-collection period
             out.append(dict(sid=sid, name="T5-infinite-no-refresh-no-initial-delay", ttl=INF, refresh=None, collect=C, frac=frac,
                             initial=(0.0, 0.0)))
+        if frac == 0.0:
+            # the offerer has been up for more than half of the session-id range when the disturbances begin
+            out.append(dict(sid=sid, name="T6-infinite-no-refresh-long-uptime", ttl=INF, refresh=None, collect=C, frac=frac,
+                            uptime=40000))
         if ctx.thorough:
             out.append(dict(sid=sid, name="T4-finite-short", ttl=2, refresh=1, collect=0, frac=frac))
     return out
